@@ -14,7 +14,7 @@
    one critical section (the code as it is); with [split = true] it is two (first
    symHashTable, then strTable, each under the write lock) — race-free for the lock
    discipline, but the theorem fails (InternProofs.split_lookup_can_fail).
-   The driver (tools/c20.py, translator dumpwrites) checks on every run that every
+   The driver (tools/c20.py, from the critical-section numbers of the translator dumpsites) checks on every run that every
    function of /repo/object that writes one table writes the other one in the same
    critical section, which is [split = false].
    Definitions only; lemmas in Conc/InternProofs.v. *)
